@@ -24,6 +24,8 @@ def expect_of(op, exp, out):
         if op == "listscripts":
             return None if res.startswith("ls:") else "OK reply: expected a listing, got %s" % res
         return None
+    if op == "logout":
+        return None     # LOGOUT has no result to report; only a BYE must surface (above)
     # NO
     want_res = "b0" if op in ("havespace", "putscript", "deletescript", "setactive", "checkscript", "renamescript") else "none"
     if res != want_res:
@@ -94,7 +96,7 @@ def run(ctx):
             if exp.get("code") or exp.get("text"):
                 nontriv += 1
             bad = expect_of(op, exp, outs[2]) if len(outs) > 2 else "operation did not run: %r" % outs
-            if bad is None and exp["status"] != "BYE":
+            if bad is None and exp["status"] != "BYE" and op != "logout":
                 # the exchange must leave the session usable: sentinels succeed
                 if len(outs) < 5 or "res=b1" not in outs[3]:
                     bad = "sentinel after the reply failed (reply not consumed exactly): %r" % (outs[3:],)
